@@ -1,3 +1,5 @@
+mod alone;
+mod c12;
 mod c13;
 mod digest;
 mod docgen;
@@ -14,6 +16,7 @@ use framework::*;
 
 fn make_check(id: &str) -> Option<Box<dyn Check>> {
     match id {
+        "C12" => Some(Box::new(c12::C12::new())),
         "C13" => Some(Box::new(c13::C13::new())),
         _ => None,
     }
